@@ -19,6 +19,10 @@ def sh(cmd, **kw):
 
 def one(cdir):
     name = os.path.relpath(cdir, root).replace("out-", "").replace("/", "-")
+    tag = os.environ.get("SEED_TAG")
+    if tag:
+        a, b = name.rsplit("-", 1)
+        name = "%s-%s-%s" % (a, tag, b)
     wt = os.path.join(scratch, "wt-" + name)
     res = {"id": name, "dir": cdir}
     try:
